@@ -153,7 +153,7 @@ def pipe_consts(h):
             lean = lean[1:-1]
         body += (f"/-- `pub const {name}: usize = {text};` of {FILE} (= {val}) -/\n"
                  f"def {name} : Nat := {lean}\n\n")
-    body += fd_consts(h) + subst_trim_char(h) + read_all_reserve(h) + fd_targets(h)
+    body += fd_consts(h) + subst_trim_char(h) + read_all_reserve(h) + fd_targets(h) + heredoc_delivery(h)
     h.write("PipeConsts", body.rstrip("\n") + "\n")
 
 
@@ -372,6 +372,38 @@ def fd_targets(h):
     ]:
         out += f"/-- {doc} of `PipeSet::move_to_stdin_stdout` ({PIPELINE_FILE}) -/\ndef {name} : Nat := {val}\n\n"
     return out
+
+
+# ---- third pass: how a here-document reaches the command ----------------------------------------------------
+
+HEREDOC_FILE = "yash-semantics/src/redir/here_doc.rs"
+
+
+def heredoc_delivery(h):
+    """`here_doc::open_fd` / `fill_content`: the body goes to an anonymous temporary file whatever its size (the
+    source says `TODO Use a pipe for short content`), is written with one `write_all`, and the descriptor is
+    rewound with `lseek(fd, SeekFrom::Start(<n>))`.  Emitted: HEREDOC_PIPE_CALLS (number of `pipe(` calls in the
+    two functions — a size threshold with a pipe would show here), HEREDOC_TMPFILE_CALLS, the seek origin
+    (0 = Start, 1 = Current, 2 = End) and offset.  `real_heredoc_delivery` (decide) ties them to File.lean's
+    `heredocFill` (temporary file, rewind to Start(0)).  Any other rewind expression fails loudly."""
+    code = strip_comments(h.read(HEREDOC_FILE))
+    cut = code.find("#[cfg(test)]")
+    if cut >= 0:
+        code = code[:cut]
+    body = fn_text(h, code, "open_fd", HEREDOC_FILE) + "\n" + fn_text(h, code, "fill_content", HEREDOC_FILE)
+    pipes = len(re.findall(r"\.\s*pipe\s*\(", body))
+    tmps = len(re.findall(r"\.\s*open_tmpfile\s*\(", body))
+    seeks = re.findall(r"\.\s*lseek\s*\(\s*[A-Za-z_][A-Za-z_0-9]*\s*,\s*(?:[A-Za-z_][A-Za-z_0-9]*::)*SeekFrom::(Start|Current|End)\s*\(\s*(-?[^()]*?)\s*\)\s*\)", body)
+    if len(seeks) != 1:
+        h.fail(f"anchor not found (or not unique): lseek(fd, SeekFrom::<origin>(<n>)) in open_fd/fill_content of {HEREDOC_FILE}")
+    origin = {"Start": 0, "Current": 1, "End": 2}[seeks[0][0]]
+    off = int_literal(h, f"lseek offset in {HEREDOC_FILE}", seeks[0][1])
+    return (f"/-- number of `pipe(` calls in `open_fd` / `fill_content` of {HEREDOC_FILE} (a here-document never goes through a pipe) -/\n"
+            f"def HEREDOC_PIPE_CALLS : Nat := {pipes}\n\n"
+            f"/-- number of `open_tmpfile(` calls there -/\ndef HEREDOC_TMPFILE_CALLS : Nat := {tmps}\n\n"
+            f"/-- origin of the rewind `lseek(fd, SeekFrom::{seeks[0][0]}({seeks[0][1]}))`: 0 = Start, 1 = Current, 2 = End -/\n"
+            f"def HEREDOC_SEEK_ORIGIN : Nat := {origin}\n\n"
+            f"/-- offset of the rewind -/\ndef HEREDOC_SEEK_OFFSET : Nat := {off}\n\n")
 
 
 TABLES = {"PipeConsts": pipe_consts}
